@@ -16,6 +16,8 @@ register number denotes.  Mirrors (core Lean only, linked into `bsmodel`):
 * `src/debugger/register.rs`                     `dwarf_register`, `From<gimli::Register>`, `DwarfRegisterMap::from`
                                                  (a sequence of `SmallVec::insert`, i.e. shifting inserts) — the tables
                                                  themselves are re-extracted from the source on every run (`Gen/Dwregs.lean`);
+* `src/debugger/mod.rs`                          `ExplorationContext::lookup_pc` (the pc the scope filter and the location-list
+                                                 selection use: the pc in frame 0, return address − 1 in outer frames);
 * `src/debugger/debugee/dwarf/unwind.rs`         `UnwindContext::next` (`rsp` of the caller := CFA of the callee) as far as the
                                                  stack pointer of the selected frame is concerned.
 -/
@@ -108,6 +110,11 @@ def candidates (f : Die) (pc : Nat) (needle : Nat) : List Entry := (bfs f).filte
 /-- `FatDieRef<Function>::local_variable(pc, needle)`: the whole subtree is walked, every match overwrites the
     result: the LAST match in BFS order -/
 def localVariable (f : Die) (pc : Nat) (needle : Nat) : Option Entry := (candidates f pc needle).getLast?
+
+/-- `ExplorationContext::lookup_pc`: the address at which lexical blocks and location lists are looked up for the
+    selected frame `k` whose location is `pc`: the pc itself in frame 0; in an outer frame the location is a return
+    address and `pc - 1` (saturating), an address inside the call instruction, is used -/
+def lookupPc (k pc : Nat) : Nat := if k = 0 then pc else pc - 1
 
 /-- `FatDieRef<Function>::parameters` (direct children only, no pc filter) -/
 def parameters (f : Die) : List Info := (f.children.map Die.info).filter (·.tag == Tag.param)
